@@ -59,7 +59,13 @@ def hostile_reads(ev, mods):
         fs = [ModuleNameFilter(name=n) for n in names]
         for acc_name in ("get_dependencies", "any_dependencies_from_dependents_to_modules_other_than_dependent_upons", "any_other_dependencies_on_dependent_upons_than_from_dependents"):
             try:
-                res = getattr(ev, acc_name)(fs[:2], fs[2:] or fs[:1])
+                from .budget import StepBudgetExceeded, step_budget
+
+                with step_budget(3_000_000):
+                    res = getattr(ev, acc_name)(fs[:2], fs[2:] or fs[:1])
+            except StepBudgetExceeded as e:
+                HUB.violation("C01", "query-does-not-terminate", f"{acc_name} exhausted its step budget ({e})", {"mods": sorted(mods)})
+                continue
             except Exception:  # noqa: BLE001
                 continue
             if isinstance(res, dict):
